@@ -18,6 +18,13 @@ def gen(run):
     yield from P.rewrite_cases(rng, 700 if quick else 60000)
     yield from P.tree_mutations(rng, 150 if quick else 20000)
     yield from P.config_lattice(rng)
+    # the streams the other MP4 properties emphasise (size-field pathologies, 2^64-edge layouts, displacement boundaries, top-level
+    # sequences): every property of the family sees every family of inputs at least thinly
+    seen = set()
+    for c in P.standard_stream(run, 40 if quick else 2000, 30 if quick else 1000, 2 if quick else 3):
+        if c[0] not in seen:
+            seen.add(c[0])
+            yield c
 
 
 fam.make(globals(), "C01", ["C01", "C01r"], gen)
